@@ -59,19 +59,23 @@ Mult(u, ui) == CASE u = "minutes" -> 60 [] u = "hours" -> 3600 [] u = "int" -> u
 (* raw values are whole multiples: start/duration given as (steps x mult),  *)
 (* rates as per-second values                                               *)
 RealTimeRate == -1
-ConfigInputs == {[unit |-> u, ui |-> ui, start |-> s, dur |-> d, rate |-> r, flops |-> f, bw |-> b, hotrate |-> h, coldrate |-> c] :
+ConfigInputs == {[unit |-> u, ui |-> ui, start |-> s, dur |-> d, rate |-> r, flops |-> f, bw |-> b, hotrate |-> h, coldrate |-> c, half |-> FALSE] :
                    u \in Units, ui \in UnitInts, s \in {0, 3, 7}, d \in {1, 5, 7, 15, 29}, r \in {1, 4}, f \in {2, 7}, b \in {1, 3},
                    h \in {5}, c \in {2}}
                 \cup
-                {[unit |-> u, ui |-> ui, start |-> sd[1], dur |-> sd[2], rate |-> 4, flops |-> 2, bw |-> 3, hotrate |-> 5, coldrate |-> RealTimeRate] :
+                {[unit |-> u, ui |-> ui, start |-> sd[1], dur |-> sd[2], rate |-> 4, flops |-> 2, bw |-> 3, hotrate |-> 5, coldrate |-> RealTimeRate, half |-> FALSE] :
                    u \in Units, ui \in UnitInts, sd \in {<<0, 1>>, <<7, 29>>}}
+                \cup
+                {[unit |-> u, ui |-> ui, start |-> 3, dur |-> 5, rate |-> 1, flops |-> 2, bw |-> 1, hotrate |-> 5, coldrate |-> 2, half |-> TRUE] :
+                   u \in Units, ui \in UnitInts}
 ConfigOK(x, y) ==
     LET m == Mult(x.unit, x.ui)
     IN /\ y.raw_start = x.start * m /\ y.raw_dur = x.dur * m    \* what the JSON file contained
        /\ y.obs.start = x.start /\ y.obs.dur = x.dur             \* parsed = raw / m
        /\ y.obs.rate = x.rate * m
        /\ y.obs.demand = 3 /\ y.total_arrays = 8 /\ y.max_ingest = 2 /\ y.ingest_demand = 2
-       /\ y.mach.cpu = x.flops * m /\ y.mach.bw = x.bw * m
+       /\ y.mach.cpu2 = (2 * x.flops + (IF x.half THEN 1 ELSE 0)) * m
+       /\ y.mach.bw2 = (2 * x.bw + (IF x.half THEN 1 ELSE 0)) * m
        /\ y.sysbw = 4 * m
        (* a non-positive cold rate is a marker (`real time`), it stays non-positive; the hot *)
        (* tier's limit is scaled like every other rate whatever the cold tier says          *)
@@ -132,7 +136,7 @@ CoverPlan ==
     IN {x \in PlanInputs : ValidPlanInput(x)} \subseteq got
 CoverConfig ==
     LET got == {[unit |-> r.x.unit, ui |-> r.x.ui, start |-> r.x.start, dur |-> r.x.dur, rate |-> r.x.rate,
-                 flops |-> r.x.flops, bw |-> r.x.bw, hotrate |-> r.x.hotrate, coldrate |-> r.x.coldrate] : r \in RangeOf(PData.config)}
+                 flops |-> r.x.flops, bw |-> r.x.bw, hotrate |-> r.x.hotrate, coldrate |-> r.x.coldrate, half |-> r.x.half] : r \in RangeOf(PData.config)}
     IN ConfigInputs \subseteq got
 
 PInit ==
